@@ -161,6 +161,11 @@ fn convert_dockerignore_glob(glob: &str, file_path: &Path) -> Result<Regex, Erro
         pattern.remove(0);
     }
 
+    // `dir/` names the directory `dir` itself (and, like every pattern, what is below it)
+    while pattern.ends_with("/") {
+        pattern.pop();
+    }
+
     #[cfg(windows)]
     let path = file_path
         .to_string_lossy()
@@ -171,7 +176,12 @@ fn convert_dockerignore_glob(glob: &str, file_path: &Path) -> Result<Regex, Erro
     #[cfg(not(windows))]
     let path = file_path.to_string_lossy().to_string();
 
-    pattern = path.replace("\\", "\\\\").add("/([^/]+/)*").add(&pattern);
+    // a pattern matches whole path components: `*.o` must not match `a.obj`
+    pattern = path
+        .replace("\\", "\\\\")
+        .add("/([^/]+/)*")
+        .add(&pattern)
+        .add("(/|$)");
 
     Regex::new(&pattern)
 }
